@@ -10,10 +10,15 @@ import vlib
 from vlib import coqlist, zlit
 
 PROPERTY = "C11"
-MODEL_TARGETS = ["Model/C11Alloc.vo"]
+MODEL_TARGETS = ["Model/C11Alloc.vo", "Model/C11Life.vo"]
 RULE = ("static mode: 1-8 snax.alloc ops over 1-3 registered memory spaces with random (start, capacity), sizes "
         "0-300 bytes, alignments from {1,2,3,4,8,10,14,16,64} plus rare 0 / absent; some allocs nested in func/scf.for; "
-        "a case is non-trivial when >= 2 allocs share a memory; distinct = distinct (memories, requests) tuples")
+        "a case is non-trivial when >= 2 allocs share a memory; distinct = distinct (memories, requests) tuples. "
+        "memref-to-snax: memref.alloc in L1 with no layout or a TSL layout of rank 1-3, depth 1-3 (contiguous, padded, random "
+        "steps; offsets; dynamic outermost bound/step with run-time dims that are / are not multiples of the inner tile), "
+        "element types i8..i64, f32, f64; the emitted arith ops are interpreted. minimalloc/auto: functions with 1-5 "
+        "top-level allocs over 1-2 memories, casts, subviews, memref.casts, views of views, uses nested in scf.for/scf.if, "
+        "ops returning unrelated memrefs; the Buffer list handed to the (stub) solver is read back")
 TRUSTED_BASE = [
     "Coq 8.16.1 kernel + vm_compute (no native_compute)",
     "hand model coq/Model/C11Alloc.v of StaticAllocs / AllocOpRewrite, tied by L1 (this harness)",
@@ -157,12 +162,442 @@ def check_static_result(mems, reqs, kind, addrs):
     return fails
 
 
+# ------------------------------------------------------------------ memref-to-snax sizes
+EL = {"i8": 1, "i16": 2, "i32": 4, "i64": 8, "f32": 4, "f64": 8, "f16": 2}
+SBOUNDS = [1, 2, 2, 3, 4, 4, 5, 8]
+
+
+def gen_tsl(rng):
+    """-> (tstrides [[(step|None, bound|None)]], offset, dims (run-time shape), static_shape [int|None])"""
+    rank = rng.choice([1, 2, 2, 3])
+    depths = [rng.choice([1, 1, 2, 2, 3]) for _ in range(rank)]
+    bounds = [[rng.choice(SBOUNDS) for _ in range(d)] for d in depths]
+    positions = [(d, k) for d in range(rank) for k in range(depths[d])]
+    order = list(positions)
+    mode = rng.choice(["lattice", "lattice", "padded", "rowmajor", "random"])
+    if mode == "rowmajor":
+        order = list(reversed(positions))
+    else:
+        rng.shuffle(order)
+    steps, cur = {}, rng.choice([1, 1, 1, 2, 4])
+    for (d, k) in order:
+        steps[(d, k)] = cur if mode != "random" else rng.choice([1, 2, 3, 4, 7, 8, 16, 40, 64])
+        cur *= bounds[d][k]
+        if mode == "padded" and rng.random() < 0.4:
+            cur += rng.choice([1, 2, 8, 16])
+    ts = [[(steps[(d, k)], bounds[d][k]) for k in range(depths[d])] for d in range(rank)]
+    dims, sshape = [], []
+    for d in range(rank):
+        inner = 1
+        for (_, b) in ts[d][1:]:
+            inner *= b
+        r = rng.random()
+        if r < 0.35:      # dynamic outermost bound (step dynamic or static)
+            st = None if rng.random() < 0.6 else ts[d][0][0]
+            ts[d][0] = (st, None)
+            mult = rng.choice([1, 2, 3, 4])
+            dv = inner * mult if rng.random() < 0.75 else inner * mult + rng.randrange(1, max(2, inner))
+            if inner == 1:
+                dv = mult
+            dims.append(dv)
+            sshape.append(None)
+        else:
+            full = inner * ts[d][0][1]
+            if rng.random() < 0.06:   # a static shape that the layout's tile bounds do not cover
+                full += rng.randrange(1, 4)
+            dims.append(full)
+            sshape.append(full)
+    off = rng.choice([0, 0, 0, 0, 1, 3, 16, 64])
+    return ts, off, dims, sshape
+
+
+def tsl_str(ts, off):
+    from snaxc.ir.tsl import Stride, TiledStride, TiledStridedLayout
+    return str(TiledStridedLayout([TiledStride([Stride(s, b) for (s, b) in t]) for t in ts], offset=off))
+
+
+def alloc_text(el, sshape, layout, ndyn, alignment):
+    shp = "x".join("?" if n is None else str(n) for n in sshape)
+    lay = f", #tsl.tsl<{layout}>" if layout else ""
+    dyn = [f'%d{i} = "test.op"() : () -> index' for i in range(ndyn)]
+    al = f"alignment = {alignment} : i64, " if alignment is not None else ""
+    return ("builtin.module {\n" + "\n".join(dyn) + "\n"
+            f'%m = "memref.alloc"({", ".join(f"%d{i}" for i in range(ndyn))}) <{{{al}operandSegmentSizes = array<i32: {ndyn}, 0>}}> : '
+            f'({", ".join(["index"] * ndyn)}) -> memref<{shp}x{el}{lay}, "L1">\n}}')
+
+
+def run_memref_to_snax(text, dyn_values):
+    """run the pass, interpret the emitted arith ops -> dict(size, shapes, alignment) or None if not rewritten"""
+    from xdsl.dialects import arith
+    from snaxc.dialects import snax
+    from snaxc.transforms.memref_to_snax import MemrefToSNAX
+    mod = parse(text)
+    MemrefToSNAX().apply(xctx(), mod)
+    mod.verify()
+    env, dyn = {}, list(dyn_values)
+    for op in mod.body.block.ops:
+        if op.name == "test.op":
+            env[op.results[0]] = dyn.pop(0)
+        elif isinstance(op, arith.ConstantOp):
+            env[op.result] = op.value.value.data
+        elif isinstance(op, arith.MuliOp):
+            env[op.result] = env[op.lhs] * env[op.rhs]
+        elif isinstance(op, arith.AddiOp):
+            env[op.result] = env[op.lhs] + env[op.rhs]
+        elif isinstance(op, arith.SubiOp):
+            env[op.result] = env[op.lhs] - env[op.rhs]
+        elif isinstance(op, arith.DivUIOp):
+            assert env[op.lhs] >= 0 and env[op.rhs] > 0
+            env[op.result] = env[op.lhs] // env[op.rhs]
+        elif isinstance(op, snax.Alloc):
+            return {"size": env[op.size], "shapes": [env[v] for v in op.shapes],
+                    "alignment": op.alignment.value.data if op.alignment is not None else None,
+                    "space": op.memory_space.data}
+    return None
+
+
+def gen_size_case(rng):
+    el = rng.choice(["i8", "i16", "i32", "i32", "i64", "f32", "f64"])
+    if rng.random() < 0.2:          # no layout
+        rank = rng.choice([1, 2, 3])
+        dims, sshape = [], []
+        for _ in range(rank):
+            n = rng.choice([1, 2, 3, 5, 8, 16])
+            dims.append(n)
+            sshape.append(None if rng.random() < 0.3 else n)
+        return {"el": el, "ts": None, "off": 0, "dims": dims, "sshape": sshape}
+    ts, off, dims, sshape = gen_tsl(rng)
+    return {"el": el, "ts": ts, "off": off, "dims": dims, "sshape": sshape}
+
+
+def run_size_case(c):
+    dyn = [d for d, s in zip(c["dims"], c["sshape"]) if s is None]
+    lay = tsl_str(c["ts"], c["off"]) if c["ts"] is not None else None
+    return run_memref_to_snax(alloc_text(c["el"], c["sshape"], lay, len(dyn), 64), dyn)
+
+
+def size_class(c):
+    """known class of a size failure: some run-time dim exceeds the product of the (instantiated) tile bounds"""
+    if c["ts"] is None:
+        return None
+    for t, dv in zip(c["ts"], c["dims"]):
+        inner = 1
+        for (_, b) in t[1:]:
+            inner *= b
+        b0 = t[0][1] if t[0][1] is not None else dv // inner
+        if b0 * inner < dv:
+            return "dim_not_covered_by_tile_bounds"
+    return None
+
+
+def check_size_case(c, res):
+    """L2: allocated bytes >= offset*el + (largest element address over the memref's real index box)*el + el.
+    Only for layouts whose steps are all static and positive (the address of an index is then defined by the type)."""
+    import itertools
+    el = EL[c["el"]]
+    if res is None:
+        return [("alloc_not_rewritten", {}, None)]
+    fails = []
+    if res["shapes"] != c["dims"]:
+        fails.append(("alloc_shape_operands", {"got": res["shapes"], "want": c["dims"]}, None))
+    if c["ts"] is None:
+        n = 1
+        for d in c["dims"]:
+            n *= d
+        if res["size"] < n * el:
+            fails.append(("alloc_too_small", {"size": res["size"], "needed": n * el}, None))
+        return fails
+    if any(s is None or s <= 0 for t in c["ts"] for (s, _) in t):
+        return fails
+    total = 1
+    for d in c["dims"]:
+        total *= d
+    if total > 6000:
+        return fails
+    mx, arg = -1, None
+    for idx in itertools.product(*[range(d) for d in c["dims"]]):
+        a = 0
+        for x, t in zip(idx, c["ts"]):
+            inner = [b for (_, b) in t[1:]]
+            p = 1
+            for b in inner:
+                p *= b
+            a += t[0][0] * (x // p)
+            for k in range(1, len(t)):
+                pk = 1
+                for b in inner[k - 1:]:
+                    pk *= b
+                pk1 = 1
+                for b in inner[k:]:
+                    pk1 *= b
+                a += t[k][0] * ((x % pk) // pk1)
+        if a > mx:
+            mx, arg = a, idx
+    need = c["off"] * el + mx * el + el
+    if res["size"] < need:
+        fails.append(("alloc_too_small", {"size": res["size"], "needed": need, "index": list(arg), "address": mx}, size_class(c)))
+    return fails
+
+
+def coq_size_case(c, res):
+    from vlib import optz, zlist
+    el = EL[c["el"]]
+    if c["ts"] is None:
+        return ("none", f"({zlit(el)}, {zlist(c['dims'])}, {zlit(res['size'])})")
+    lay = "(mkLayout " + coqlist(coqlist(f"({optz(s)}, {optz(b)})" for (s, b) in t) for t in c["ts"]) + " " + optz(c["off"]) + ")"
+    return ("tsl", f"({zlit(el)}, {lay}, {zlist(c['dims'])}, {zlit(res['size'])})")
+
+
+# ------------------------------------------------------------------ minimalloc / auto mode: lifetimes
+ALIAS_OPS = {"builtin.unrealized_conversion_cast", "memref.subview", "memref.cast", "memref.reinterpret_cast",
+             "memref.expand_shape", "memref.collapse_shape", "memref.transpose", "memref.view",
+             "memref.memory_space_cast", "snax.layout_cast"}
+MT = "memref<4x4xi32>"
+SV = "memref<2x4xi32, strided<[4, 1]>>"
+DC = "memref<?x?xi32>"
+SVC = "memref<?x4xi32, strided<[4, 1]>>"
+
+
+def gen_life_program(rng):
+    """-> (text of a func with top-level snax.alloc ops, views, casts, nested uses), number of memories"""
+    nm = rng.choice([1, 1, 2])
+    nb = rng.choice([1, 2, 2, 3, 3, 4, 5])
+    lines = ["%c4 = arith.constant 4 : index", "%c0 = arith.constant 0 : index", "%c1 = arith.constant 1 : index",
+             "%cond = arith.constant true"]
+    live = []     # (value name, type) of memref-typed values visible at top level
+    cnt = [0]
+
+    def fresh(p):
+        cnt[0] += 1
+        return f"%{p}{cnt[0]}"
+
+    def use_text(vals):
+        return f'"test.op"({", ".join(v for v, _ in vals)}) : ({", ".join(t for _, t in vals)}) -> ()'
+
+    def view_text(src):
+        v, t = src
+        if t == MT:
+            if rng.random() < 0.6:
+                n = fresh("v")
+                return n, SV, (f'{n} = "memref.subview"({v}) <{{operandSegmentSizes = array<i32: 1, 0, 0, 0>, static_offsets = array<i64: 0, 0>, '
+                               f'static_sizes = array<i64: 2, 4>, static_strides = array<i64: 1, 1>}}> : ({MT}) -> {SV}')
+            n = fresh("k")
+            return n, DC, f'{n} = "memref.cast"({v}) : ({MT}) -> {DC}'
+        if t == SV:
+            n = fresh("k")
+            return n, SVC, f'{n} = "memref.cast"({v}) : ({SV}) -> {SVC}'
+        n = fresh("u")   # anything else: an unrealized cast back to an index-like token and again to a memref
+        return n, MT, f'{n} = "builtin.unrealized_conversion_cast"({v}) : ({t}) -> {MT}'
+
+    allocated = 0
+    steps = rng.randrange(nb, nb + 10)
+    for _ in range(steps + nb):
+        r = rng.random()
+        if allocated < nb and (r < 0.35 or not live):
+            k = allocated
+            allocated += 1
+            size = rng.choice([16, 32, 64, 64, 100, 128])
+            al = rng.choice([1, 1, 4, 8, 16, 64])
+            m = rng.randrange(nm)
+            lines.append(f"%sz{k} = arith.constant {size} : index")
+            lines.append(f'%a{k} = "snax.alloc"(%sz{k}, %c4, %c4) <{{memory_space = "M{m}", alignment = {al} : i32}}> : (index, index, index) -> {struct_ty(2)}')
+            lines.append(f'%m{k} = "builtin.unrealized_conversion_cast"(%a{k}) : ({struct_ty(2)}) -> {MT}')
+            live.append((f"%m{k}", MT))
+            if rng.random() < 0.15:   # a second cast of the same descriptor
+                lines.append(f'%n{k} = "builtin.unrealized_conversion_cast"(%a{k}) : ({struct_ty(2)}) -> {MT}')
+                live.append((f"%n{k}", MT))
+        elif r < 0.55 and live:
+            lines.append(use_text(rng.sample(live, min(len(live), rng.choice([1, 1, 2])))))
+        elif r < 0.75 and live:
+            n, t, txt = view_text(rng.choice(live))
+            lines.append(txt)
+            live.append((n, t))
+        elif r < 0.85 and live:      # uses nested in control flow (lifted to the enclosing top-level op)
+            vals = rng.sample(live, min(len(live), rng.choice([1, 2])))
+            inner = use_text(vals)
+            if rng.random() < 0.4:   # a view created and used inside the loop
+                n, t, txt = view_text(rng.choice(live))
+                inner = txt + "\n" + use_text([(n, t)])
+            if rng.random() < 0.5:
+                body = f"scf.for %i{fresh('i')[1:]} = %c0 to %c4 step %c1 {{\n{inner}\n}}"
+                if rng.random() < 0.3:
+                    body = f"scf.for %j{fresh('j')[1:]} = %c0 to %c4 step %c1 {{\n{body}\n}}"
+            else:
+                body = f"scf.if %cond {{\n{inner}\n}}"
+            lines.append(body)
+        elif live:                   # an op that takes the buffer and returns a memref that is NOT a view of it
+            v, t = rng.choice(live)
+            n = fresh("r")
+            lines.append(f'{n} = "test.op"({v}) : ({t}) -> {MT}')
+            if rng.random() < 0.5:
+                live.append((n, MT))
+    if live and rng.random() < 0.5:
+        lines.append(use_text([rng.choice(live)]))
+    text = "builtin.module {\nfunc.func public @f() {\n" + "\n".join(lines) + "\nfunc.return\n}\n}"
+    return text, nm
+
+
+def convert_func(func_op):
+    """xDSL func body -> abstract use-list program (trusted converter, structural).
+    -> (ops [dict(kind, top, ops, res, alias, size, align, mem)], alloc_ops [op])"""
+    from xdsl.dialects import arith
+    from xdsl.dialects.builtin import MemRefType
+    ids = {}
+
+    def vid(v):
+        if v not in ids:
+            ids[v] = len(ids) + 1
+        return ids[v]
+    out, alloc_ops = [], []
+    for top, top_op in enumerate(func_op.body.block.ops):
+        for op in top_op.walk():
+            kind = "KOther"
+            size = al = mem = 0
+            if op.name == "snax.alloc" and op is top_op:
+                kind = "KAlloc"
+                size = op.size.owner.value.value.data
+                al = op.alignment.value.data if op.alignment is not None else 0
+                mem = int(op.memory_space.data[1:])
+                alloc_ops.append(op)
+            elif op.name == "builtin.unrealized_conversion_cast":
+                kind = "KCast"
+            out.append({"kind": kind, "top": top, "ops": [vid(v) for v in op.operands],
+                        "res": [(vid(r), isinstance(r.type, MemRefType)) for r in op.results],
+                        "alias": op.name in ALIAS_OPS, "size": size, "align": al, "mem": mem})
+    return out, alloc_ops
+
+
+def coq_prog(prog):
+    from vlib import boollit
+    items = []
+    for o in prog:
+        res = coqlist(f"({r}%nat, {boollit(m)})" for r, m in o["res"])
+        ops = coqlist(f"{x}%nat" for x in o["ops"])
+        items.append(f"(mkOp {o['kind']} {o['top']}%nat {ops} {res} {boollit(o['alias'])} {zlit(o['size'])} {zlit(o['align'])} {o['mem']}%nat)")
+    return coqlist(items)
+
+
+def run_minimalloc(text, nm, mode):
+    """-> dict(prog, problems {mem: [(start,end,size,align)]}, addrs [(mem, addr, size)], module)"""
+    import minimalloc_stub
+    from xdsl.dialects import func, llvm
+    from xdsl.dialects.builtin import StringAttr
+    from snaxc.transforms.snax_allocate import SnaxAllocatePass
+    from snaxc.util.snax_memory import SnaxMemory
+    c = xctx()
+    mems = [(0x1000 * (i + 1), 65536) for i in range(nm)]
+    for i, (start, cap) in enumerate(mems):
+        c.register_memory(SnaxMemory(StringAttr(f"M{i}"), cap, start))
+    mod = parse(text)
+    f = [op for op in mod.walk() if isinstance(op, func.FuncOp)][0]
+    prog, alloc_ops = convert_func(f)
+    idmap = {str(hash(op)): (k, int(op.memory_space.data[1:])) for k, op in enumerate(alloc_ops)}
+    del minimalloc_stub.PROBLEMS[:]
+    SnaxAllocatePass(mode=mode).apply(c, mod)
+    mod.verify()
+    problems = {}
+    for pr in minimalloc_stub.PROBLEMS:
+        ms = {idmap[b.id][1] for b in pr.buffers}
+        assert len(ms) == 1
+        problems[ms.pop()] = [(b.start_time, b.end_time, b.size, b.alignment) for b in pr.buffers]
+    addrs = [op.input.owner.value.value.data for op in mod.walk() if isinstance(op, llvm.IntToPtrOp)]
+    return {"prog": prog, "problems": problems, "addrs": addrs, "mems": mems, "module": mod,
+            "alloc_meta": [(int(op_mem), sz) for (op_mem, sz) in [(o["mem"], o["size"]) for o in prog if o["kind"] == "KAlloc"]]}
+
+
+def true_use_tops(prog, alloc_index):
+    """independent of the implementation: top-level indices of every op that uses the buffer or a view/cast of it"""
+    allocs = [o for o in prog if o["kind"] == "KAlloc"]
+    a = allocs[alloc_index]
+    vals = {a["res"][0][0]}
+    changed = True
+    while changed:
+        changed = False
+        for o in prog:
+            if o["alias"] and any(x in vals for x in o["ops"]):
+                for r, _ in o["res"]:
+                    if r not in vals:
+                        vals.add(r)
+                        changed = True
+    return a["top"], sorted(o["top"] for o in prog if any(x in vals for x in o["ops"]))
+
+
+def check_life(run):
+    """L2 on the implementation: the interval handed to the solver covers every use of the buffer and of its
+    views; buffers that are live at the same time got disjoint ranges; no use after the inserted dealloc."""
+    fails = []
+    prog = run["prog"]
+    allocs = [o for o in prog if o["kind"] == "KAlloc"]
+    per_mem = {}
+    for k, a in enumerate(allocs):
+        per_mem.setdefault(a["mem"], []).append(k)
+    spans = {}
+    for m, ks in per_mem.items():
+        bufs = run["problems"].get(m)
+        if bufs is None or len(bufs) != len(ks):
+            fails.append(("problem_missing", {"memory": m}, None))
+            continue
+        for k, (st, en, sz, al) in zip(ks, bufs):
+            top, uses = true_use_tops(prog, k)
+            last = max(uses) if uses else top
+            spans[k] = (top, last)
+            if st != top or sz != allocs[k]["size"] or al != allocs[k]["align"]:
+                fails.append(("buffer_fields", {"alloc": k, "buffer": [st, en, sz, al]}, None))
+            if en < last:
+                direct = [o["top"] for o in prog if allocs[k]["res"][0][0] in o["ops"]]
+                klass = None
+                fails.append(("lifetime_misses_use", {"alloc": k, "buffer_interval": [st, en], "last_use_incl_views": last,
+                                                      "last_direct_use": max(direct) if direct else None}, klass))
+    # addresses: allocs in order of appearance (one inttoptr per alloc)
+    if len(run["addrs"]) == len(allocs):
+        for i in range(len(allocs)):
+            for j in range(i + 1, len(allocs)):
+                if allocs[i]["mem"] != allocs[j]["mem"] or i not in spans or j not in spans:
+                    continue
+                (s1, e1), (s2, e2) = spans[i], spans[j]
+                if max(s1, s2) <= min(e1, e2):   # both live at some top-level index
+                    a1, a2 = run["addrs"][i], run["addrs"][j]
+                    if a1 < a2 + allocs[j]["size"] and a2 < a1 + allocs[i]["size"]:
+                        fails.append(("live_buffers_overlap", {"allocs": [i, j], "addresses": [a1, a2],
+                                                               "sizes": [allocs[i]["size"], allocs[j]["size"]], "live": [spans[i], spans[j]]}, None))
+        for i, a in enumerate(allocs):
+            start, cap = run["mems"][a["mem"]]
+            ad = run["addrs"][i]
+            if ad < start or ad + a["size"] > start + cap or (a["align"] > 0 and (ad - start) % a["align"] != 0):
+                fails.append(("minimalloc_range", {"alloc": i, "address": ad}, None))
+    else:
+        fails.append(("address_count", {"addrs": run["addrs"]}, None))
+    # deallocs: no use of the buffer or a view of it after its dealloc
+    from xdsl.dialects import func
+    f = [op for op in run["module"].walk() if isinstance(op, func.FuncOp)][0]
+    order = {op: i for i, op in enumerate(f.walk())}
+    for op in f.walk():
+        if op.name == "memref.dealloc":
+            vals, work = set(), [op.operands[0]]
+            # the deallocated value and everything aliasing the same descriptor
+            root = op.operands[0].owner.operands[0] if op.operands[0].owner.name == "builtin.unrealized_conversion_cast" else op.operands[0]
+            work = [root]
+            while work:
+                v = work.pop()
+                if v in vals:
+                    continue
+                vals.add(v)
+                for u in v.uses:
+                    if u.operation.name in ALIAS_OPS:
+                        work.extend(u.operation.results)
+            for v in vals:
+                for u in v.uses:
+                    if u.operation is not op and order[u.operation] > order[op]:
+                        fails.append(("use_after_dealloc", {"user": u.operation.name}, None))
+    return fails
+
+
 # ------------------------------------------------------------------ L1
 def correspondence(ctx):
     rng = ctx.rng
     dis = []
     # --- static mode
-    n = ctx.n(150, 2000)
+    n = ctx.n(100, 2000)
     cases, meta = [], []
     for _ in range(n):
         mems, reqs, nest = gen_static(rng)
@@ -183,6 +618,70 @@ def correspondence(ctx):
         return [{"name": "cases-file", "detail": out[-2000:]}]
     for idx in lists[0]:
         dis.append({"name": "L1:static", "case": meta[idx], "coq_case": cases[idx][:600]})
+    dis += _corr_sizes(ctx) + _corr_life(ctx)
+    return dis
+
+
+def _corr_sizes(ctx):
+    rng = ctx.rng
+    n = ctx.n(150, 3000)
+    none_cases, tsl_cases, meta_n, meta_t = [], [], [], []
+    for _ in range(n):
+        c = gen_size_case(rng)
+        res = run_size_case(c)
+        if res is None:
+            return [{"name": "L1:memref-to-snax", "detail": "alloc not rewritten", "case": c}]
+        kind, lit = coq_size_case(c, res)
+        (none_cases if kind == "none" else tsl_cases).append(lit)
+        (meta_n if kind == "none" else meta_t).append({"case": c, "impl": res})
+        dyn = any(x is None for x in c["sshape"])
+        ctx.count({"pass": "memref-to-snax", "case": c, "size": res["size"]}, c["ts"] is not None,
+                  f"sz{c}", "size:" + ("none" if c["ts"] is None else ("dynamic" if dyn else "static")))
+    text = ["From Snax Require Import Base.Prelude Model.Tsl Model.C11Alloc.",
+            f"Definition cases_none : list (Z * list Z * Z) := {coqlist(none_cases)}.",
+            "Eval vm_compute in failing (fun c => match c with (el, dims, r) => size_none el dims =? r end) cases_none.",
+            f"Definition cases_tsl : list (Z * layout * list Z * Z) := {coqlist(tsl_cases)}.",
+            "Eval vm_compute in failing (fun c => match c with (el, l, dims, r) => optZ_eqb (size_tsl el l dims) (Some r) end) cases_tsl."]
+    ok, out = vlib.coq_eval("c11s", "\n".join(text) + "\n", timeout=600)
+    lists = vlib.parse_all_eval_lists(out)
+    if not ok or len(lists) != 2:
+        return [{"name": "cases-file", "detail": out[-2000:]}]
+    dis = [{"name": "L1:memref-to-snax(no layout)", "case": meta_n[i], "coq_case": none_cases[i][:600]} for i in lists[0]]
+    dis += [{"name": "L1:memref-to-snax(tsl)", "case": meta_t[i], "coq_case": tsl_cases[i][:600]} for i in lists[1]]
+    return dis
+
+
+def _corr_life(ctx):
+    rng = ctx.rng
+    n = ctx.n(60, 2000)
+    cases, meta = [], []
+    for _ in range(n):
+        text, nm = gen_life_program(rng)
+        mode = rng.choice(["minimalloc", "minimalloc", "auto"])
+        run = run_minimalloc(text, nm, mode)
+        bufs = []
+        for m in range(nm):
+            bl = run["problems"].get(m, [])
+            bufs.append(coqlist(f"(mkBuf {st}%nat {en}%nat {zlit(sz)} {zlit(al)})" for st, en, sz, al in bl))
+        cases.append(f"({coq_prog(run['prog'])}, {coqlist(bufs)})")
+        meta.append({"text": text, "mode": mode, "problems": run["problems"]})
+        nviews = sum(1 for o in run["prog"] if o["alias"] and o["kind"] != "KCast")
+        ctx.count({"pass": f"snax-allocate{{mode={mode}}}", "buffers": run["problems"]}, nviews >= 1, text, f"life:{mode}")
+    shards, per = [], 20
+    for a in range(0, len(cases), per):
+        text = ["From Snax Require Import Base.Prelude Model.C11Life.",
+                f"Definition cases : list (list aop * list (list buffer)) := {coqlist(cases[a:a + per])}.",
+                "Definition ok (c : list aop * list (list buffer)) : bool := wf_prog (fst c) && "
+                "list_eqb (list_eqb buffer_eqb) (map (buffers_in (fst c)) (seq 0 (length (snd c)))) (snd c).",
+                "Eval vm_compute in failing ok cases."]
+        shards.append("\n".join(text) + "\n")
+    dis = []
+    for si, (ok, out) in enumerate(vlib.coq_eval_many("c11l_", shards, timeout=600)):
+        lists = vlib.parse_all_eval_lists(out)
+        if not ok or len(lists) != 1:
+            return [{"name": "cases-file", "detail": out[-2000:]}]
+        for idx in lists[0]:
+            dis.append({"name": "L1:minimalloc-lifetimes", "case": meta[si * per + idx], "coq_case": cases[si * per + idx][:600]})
     return dis
 
 
@@ -198,6 +697,20 @@ def search(ctx, deep=False):
             fails.append({"what": what, "mode": "static", "input": {"mems": mems, "reqs": reqs, "nest": nest},
                           "impl": [kind, addrs], "detail": detail, "klass": klass})
         ctx.count({"L2": "static", "reqs": reqs}, len(reqs) > 1, f"l2st{mems}{reqs}", "L2:static")
+    for _ in range(ctx.n(250, 3000) * (3 if deep else 1)):
+        c = gen_size_case(rng)
+        res = run_size_case(c)
+        for what, detail, klass in check_size_case(c, res):
+            fails.append({"what": what, "mode": "size", "input": c, "impl": res, "detail": detail, "klass": klass})
+        ctx.count({"L2": "size", "case": c}, c["ts"] is not None, f"l2sz{c}", "L2:size")
+    for _ in range(ctx.n(150, 2000) * (3 if deep else 1)):
+        text, nm = gen_life_program(rng)
+        mode = rng.choice(["minimalloc", "auto"])
+        run = run_minimalloc(text, nm, mode)
+        for what, detail, klass in check_life(run):
+            fails.append({"what": what, "mode": "life", "input": {"text": text, "nm": nm, "pass_mode": mode},
+                          "impl": {"problems": run["problems"], "addrs": run["addrs"]}, "detail": detail, "klass": klass})
+        ctx.count({"L2": "life"}, True, "l2lf" + text, "L2:life")
     return _dedup(fails)
 
 
@@ -212,7 +725,9 @@ def _dedup(fails):
 
 
 def replay_known(ctx, entry):
-    return False
+    w = entry["witness"]
+    c = {"el": w["el"], "ts": [[tuple(sb) for sb in t] for t in w["ts"]], "off": w["off"], "dims": w["dims"], "sshape": w["sshape"]}
+    return any(k == entry["class"] for (_, _, k) in check_size_case(c, run_size_case(c)))
 
 
 def replay(ctx, obj):
@@ -232,5 +747,24 @@ def replay(ctx, obj):
         for r in res:
             print("FAIL", r)
         return 1 if res else 0
+    if f.get("mode") == "size":
+        c = f["input"]
+        if c["ts"] is not None:
+            c["ts"] = [[tuple(sb) for sb in t] for t in c["ts"]]
+        res = run_size_case(c)
+        print("memref.alloc:", c, "\nimplementation:", res)
+        fs = check_size_case(c, res)
+        for r in fs:
+            print("FAIL", r)
+        return 1 if fs else 0
+    if f.get("mode") == "life":
+        i = f["input"]
+        print(i["text"])
+        run = run_minimalloc(i["text"], i["nm"], i["pass_mode"])
+        print("buffers handed to the solver:", run["problems"], "\naddresses:", run["addrs"])
+        fs = check_life(run)
+        for r in fs:
+            print("FAIL", r)
+        return 1 if fs else 0
     print("unknown replay kind")
     return 1
